@@ -522,6 +522,16 @@ func init() {
 			{Op: "ask", Email: "a@x.io", Groups: []string{"g2", "g1"}, Dir: []string{"g2"}},
 			{Op: "ask", Email: "a@x.io", Groups: []string{"g1"}, Dir: []string{}},
 		}))
+		// names differing only by surrounding whitespace or case are different names: different questions
+		emit(gcRunCase([]gcOp{
+			{Op: "ask", Email: "a@x.io", Groups: []string{"g1 "}, Dir: []string{}},
+			{Op: "ask", Email: "a@x.io", Groups: []string{"g1"}, Dir: []string{"g1"}},
+			{Op: "ask", Email: "a@x.io", Groups: []string{" g1", "g2"}, Dir: []string{"g2"}},
+			{Op: "ask", Email: "a@x.io", Groups: []string{"g1", "g2"}, Dir: []string{"g1", "g2"}},
+			{Op: "ask", Email: "a@x.io", Groups: []string{"G1"}, Dir: []string{}},
+			{Op: "ask", Email: "a@x.io", Groups: []string{"g1", "g1"}, Dir: []string{"g1"}},
+			{Op: "ask", Email: "a@x.io ", Groups: []string{"g1"}, Dir: []string{}},
+		}))
 		emit(runFc([]fcOp{
 			{Op: "loopStart", G: "g"}, {Op: "updBegin", T: 1, G: "g"}, {Op: "loopStart", G: "g"}, {Op: "loopEnd", G: "g", R: "ok", M: []string{"u", "v"}},
 			{Op: "get", G: "g"}, {Op: "updBegin", T: 1, G: "g"}, {Op: "updBegin", T: 2, G: "g"}, {Op: "updBegin", T: 3, G: "h"}, {Op: "updEnd", T: 1, R: "err"},
@@ -544,7 +554,7 @@ func init() {
 		}
 		// random
 		emails := []string{"a@x.io", "b@x.io", "A@x.io"}
-		gnames := []string{"g1", "g2", "g3", "g1,g2"}
+		gnames := []string{"g1", "g2", "g3", "g1,g2", " g1", "g1 ", "", "G1"}
 		users := []string{"u", "v", "w"}
 		subset := func(src []string) []string {
 			var out []string
